@@ -104,6 +104,7 @@ def fresh_case(cls, mutation):
         a = spec["new"](I)
         b = spec["new"](I)
         b0 = snap(I, spec, b)
+        empty_encoding = b0[2]
         I.prove(f"C20.{cls}.new_block_starts_empty", b0[0] == 0 and snap(I, spec, a)[0] == 0)
         if mutation == "add":
             spec["add"](I, a, "a0")
@@ -115,13 +116,28 @@ def fresh_case(cls, mutation):
             spec["remove"](a)
         elif mutation == "assign":
             spec["assign"](I, a, "a0")
+        elif mutation == "assign_shared":
+            # one caller-owned list assigned to both blocks, then A is edited through its
+            # public interface: the setter must have installed a private copy in each
+            t0 = _track(I, cls, "sh0")
+            lst = [t0]
+            a.tracks = lst
+            b.tracks = lst
+            b0 = snap(I, spec, b)
+            spec["add"](I, a, "a1")
+            I.prove(f"C20.{cls}.callers_list_not_captured", len(lst) == 1 and lst[0] is t0, mutation)
+        elif mutation == "assign_from_other":
+            spec["add"](I, a, "a0")
+            b.tracks = a.tracks
+            b0 = snap(I, spec, b)
+            spec["add"](I, a, "a1")
         b1 = snap(I, spec, b)
         I.observe("b", [b1[0], b1[2]])
         I.prove(f"C20.{cls}.other_instance_unchanged", same(I, b0, b1), mutation)
         c = spec["new"](I)
         c0 = snap(I, spec, c)
         I.observe("c", [c0[0], c0[2]])
-        I.prove(f"C20.{cls}.later_instance_starts_empty", c0[0] == 0 and same(I, (0, [], b0[2]), c0), mutation)
+        I.prove(f"C20.{cls}.later_instance_starts_empty", c0[0] == 0 and same(I, (0, [], empty_encoding), c0), mutation)
         # and the other direction: mutating the later instance leaves the first two alone
         a1 = snap(I, spec, a)
         spec["add"](I, c, "c0")
@@ -204,7 +220,7 @@ def decode_case(cls, mutation):
 def instances(tier):
     out = []
     for cls, spec in SPEC.items():
-        muts = ["add", "add2"] + (["add_remove"] if spec["remove"] else []) + (["assign"] if "assign" in spec else [])
+        muts = ["add", "add2"] + (["add_remove"] if spec["remove"] else []) + (["assign", "assign_shared", "assign_from_other"] if "assign" in spec else [])
         for m in muts:
             out.append(Instance(f"{cls}.fresh.{m}", fresh_case(cls, m), goals=["done"]))
         if "explicit" in spec:
